@@ -160,6 +160,20 @@ func runP1(c *p1Case, r *core.Rec, cl p1Clauses) {
 				}
 			}
 		}
+		if oa.VerifyPanic == nil {
+			// asking for the full parity check must not change what Verify reports about the files
+			if oa.VerifyErr != nil {
+				r.Violatef("verify-alldata-error-on-valid-set:"+errClass(oa.VerifyErr), "Verify with VerifyAllData returned %v where plain Verify returned %v (truth: unusable data %d, usable parity %d)", oa.VerifyErr, o.VerifyErr, t.UnusableData, t.UsableParity)
+			} else {
+				fc := oa.Result.FileCounts
+				if fc.UsableDataFileCount != t.UsableData || fc.UnusableDataFileCount != t.UnusableData || fc.UsableParityFileCount != t.UsableParity {
+					r.Violatef("verify-alldata-counts-wrong", "Verify with VerifyAllData says data %d/%d parity %d, truth %d/%d parity %d", fc.UsableDataFileCount, fc.UnusableDataFileCount, fc.UsableParityFileCount, t.UsableData, t.UnusableData, t.UsableParity)
+				}
+				if oa.Result.AllDataOk && !t.AllIntact {
+					r.Violate("alldataok-but-data-damaged", "Verify reported AllDataOk although a data file is not byte-identical")
+				}
+			}
+		}
 		if oa.VerifyPanic == nil && oa.VerifyErr == nil && t.AllIntact && t.UsableParity == c.Cfg.Volumes {
 			if !oa.Result.AllDataOk {
 				r.Violate("untouched-set-not-all-ok", "untouched set: Verify with the full parity check did not report AllDataOk")
